@@ -599,7 +599,7 @@ def parseObs (d : DState) (toks : List String) (impl : String) : Mon.Obs String 
       (parseSnap t).map fun (name, rows) =>
         ({ sess := name, newProto := ((getSess d name).map (·.newProto)).getD false, rows := rows } : Mon.Snap String) }
 
-def DMon.init (store jsonMode : Bool) : DMon := { core := { store := store, jsonMode := jsonMode } }
+def DMon.init (store jsonMode : Bool) : DMon := { core := Mon.init store jsonMode }
 
 /-- Evaluate the monitors on one record of the implementation: the typed core, plus two checks that relate
 the *operation* to the observation (a response the handler produced must not vanish). -/
